@@ -358,7 +358,7 @@ func RunE1(env *Env, job *E1Job) *E1Res {
 			res.Harness = "NewStack: " + err.Error()
 			return
 		}
-		defer st.Close()
+		defer func() { st.Close() }()
 		m := model.New(os.Getuid(), os.Getgid(), 0o777)
 		if job.Foreign != nil {
 			img, fm, err := BuildForeign(*job.Foreign, os.Getuid(), os.Getgid())
@@ -391,9 +391,35 @@ func RunE1(env *Env, job *E1Job) *E1Res {
 			}
 			return ops.ExecModel(m, o)
 		}
+		// execImpl runs one call; "rebuild" / "reopen" replace the running instance by a fresh one over the same tape with
+		// an empty / the same index (continuing a history from a non-initial, differently spelled index state)
+		execImpl := func(o ops.Op) (error, string) {
+			if o.K == "rebuild" || o.K == "reopen" {
+				for _, h := range st.Handles {
+					_, _ = Guard(func() error { return h.F.Close() })
+				}
+				dir := env.TempDir()
+				if err := CopyFile(st.Drive, dir+"/drive.tar"); err != nil {
+					return err, ""
+				}
+				if o.K == "reopen" {
+					if err := CopyFile(st.Index, dir+"/index.sqlite"); err != nil {
+						return err, ""
+					}
+				}
+				ns, err := rig.NewStack(dir, job.Cfg, env.Keys)
+				if err != nil {
+					return err, ""
+				}
+				st.Close()
+				st = ns
+				return Guard(func() error { return st.Init() })
+			}
+			return Guard(func() error { return ops.ExecImpl(st, o) })
+		}
 		for i, o := range job.Setup {
 			ph.Name = fmt.Sprintf("setup[%d] %s", i, o)
-			_, _ = Guard(func() error { return ops.ExecImpl(st, o) })
+			_, _ = execImpl(o)
 			vsync.Quiesce()
 			execModel(o)
 		}
@@ -401,7 +427,7 @@ func RunE1(env *Env, job *E1Job) *E1Res {
 		for i := 0; i < n-1; i++ {
 			o := job.Hist[i]
 			ph.Name = fmt.Sprintf("prefix[%d] %s", i, o)
-			_, _ = Guard(func() error { return ops.ExecImpl(st, o) })
+			_, _ = execImpl(o)
 			vsync.Quiesce()
 			execModel(o)
 		}
@@ -418,7 +444,8 @@ func RunE1(env *Env, job *E1Job) *E1Res {
 			ctx.mPre = m.Clone()
 			ph.Name = "op"
 			var pan string
-			ctx.err, pan = Guard(func() error { return ops.ExecImpl(st, o) })
+			ctx.err, pan = execImpl(o)
+			ctx.st = st
 			vsync.Quiesce()
 			if pan != "" {
 				viol("C10", "C10|panic|"+ctx.shape, pan)
